@@ -145,7 +145,12 @@ impl Gen {
     /// A fresh (or deliberately re-used) valid string for the column.
     fn gen_string(&mut self, c: &ColSpec) -> String {
         if !c.enums.is_empty() {
-            return self.rng.pick(&c.enums).clone();
+            // (a listed value can still be too long for the column: not a valid value)
+            let ok: Vec<String> = c.enums.iter().filter(|e| value_valid(c, &Val::Str(e.to_string()))).cloned().collect();
+            if ok.is_empty() {
+                return String::new();
+            }
+            return self.rng.pick(&ok).clone();
         }
         let w = match c.ty {
             CType::Str(w) => w as usize,
@@ -326,7 +331,9 @@ impl Gen {
                         2 => &[" on", "off ", "auto", "two words"],
                         _ => &["a"],
                     };
-                    if w == 0 || e.iter().all(|s| s.len() <= w as usize) {
+                    if w == 0 || e.iter().all(|s| s.len() <= w as usize) || (w >= 1 && self.rng.chance(300) && e.iter().any(|s| s.len() <= w as usize)) {
+                        // (sometimes an enumeration that is inconsistent with the width: a listed
+                        // value that is too long stays an invalid value)
                         c.enums = e.iter().map(|s| s.to_string()).collect();
                     }
                 }
@@ -1001,6 +1008,12 @@ impl Gen {
                 let secs = self.rng.range(-11_644_380_000, 1_800_000_000_000);
                 let secs = if self.rng.chance(300) { self.rng.range(-1000, 1000) } else { secs };
                 let nanos = if self.rng.chance(500) { (self.rng.below(10_000_000) * 100) as u32 } else { self.rng.below(1_000_000_000) as u32 };
+                // the Unix epoch itself and its neighbours, to the tick
+                let (secs, nanos) = if self.rng.chance(60) {
+                    (*self.rng.pick(&[0i64, 0, -1, 1]), *self.rng.pick(&[0u32, 0, 50, 99, 100, 999_999_900]))
+                } else {
+                    (secs, nanos)
+                };
                 SumOp::SetTime(secs, nanos)
             }
             9 => {
@@ -1239,7 +1252,11 @@ impl Gen {
                         (Some(cat), true) if cat == "Identifier" => Val::Str("has space".into()),
                         (Some(cat), true) if cat == "UpperCase" => Val::Str("lower".into()),
                         (Some(cat), true) if cat == "LowerCase" => Val::Str("UPPER".into()),
-                        (_, true) if !c.enums.is_empty() => Val::Str("notInEnum".into()),
+                        (_, true) if !c.enums.is_empty() => match c.enums.iter().find(|e| !value_valid(c, &Val::Str(e.to_string()))) {
+                            // listed in the enumeration, yet too long for the column
+                            Some(e) => Val::Str(e.clone()),
+                            None => Val::Str("notInEnum".into()),
+                        },
                         (_, true) => Val::Int(9),
                         _ => Val::Str("s".into()),
                     }
@@ -1711,6 +1728,46 @@ impl Gen {
         self.push(Op::Observe);
     }
 
+    /// Table N and stream N are different things: a statement on the table directly followed
+    /// by a stream call under the same name, and the other way round.
+    fn macro_same_name(&mut self) {
+        let ts = self.user_plain_tables();
+        if ts.is_empty() {
+            return;
+        }
+        let n = self.rng.pick(&ts).clone();
+        if self.own_handle_live(&n) {
+            return;
+        }
+        let t = self.model.tables.get(&n).unwrap().clone();
+        let sel = Op::Select { table: n.clone(), cols: vec![t.cols[0].name.clone()], cond: None };
+        self.push(sel.clone());
+        self.serial += 1;
+        let dseed = self.serial;
+        let steps = vec![WStep::Write(40 + self.rng.below(300) as u32), WStep::Flush];
+        if self.model.expect_write_stream(&n) == Expect::Ok {
+            self.model.apply_write_stream(&n, dseed, &steps);
+            if !self.stream_names.contains(&n) {
+                self.stream_names.push(n.clone());
+            }
+        }
+        self.push(Op::WriteStream { name: n.clone(), dseed, steps });
+        self.push(sel.clone());
+        self.push(Op::ReadStream { name: n.clone(), steps: vec![RStep::ToEnd] });
+        let row = self.gen_row(&t);
+        if let Ok(nt) = self.model.plan_insert(&n, &[row.clone()]) {
+            self.model.tables.insert(n.clone(), nt);
+            self.push(Op::Insert { table: n.clone(), rows: vec![row] });
+        }
+        if self.rng.chance(500) {
+            if self.model.expect_existing_stream(&n) == Expect::Ok {
+                self.model.apply_remove_stream(&n);
+            }
+            self.push(Op::RemoveStream { name: n.clone() });
+        }
+        self.push(Op::Observe);
+    }
+
     /// A save window whose only change is one summary setter (per-setter dirty
     /// tracking shows here and nowhere else).
     fn macro_single_summary(&mut self) {
@@ -1808,6 +1865,10 @@ impl Gen {
             }
             if matches!(p, Profile::ReadOnly | Profile::Streams | Profile::Foreign) && self.rng.chance(12) {
                 self.macro_binary_table();
+                return;
+            }
+            if matches!(p, Profile::Streams | Profile::Foreign | Profile::Clean) && self.rng.chance(if p == Profile::Streams { 25 } else { 6 }) {
+                self.macro_same_name();
                 return;
             }
         }
@@ -2356,13 +2417,13 @@ pub fn gen_corruption(rng: &mut Prng) -> CorruptSpec {
         25..=26 => CorruptSpec::CopySector(p, rng.below(1_000_000) as u32),
         27..=28 => CorruptSpec::StaleSector(p),
         29..=30 => CorruptSpec::RandomBytes(rng.below(3000) as u32, rng.next_u64() as u32),
-        31..=58 => CorruptSpec::Cell(rng.next_u64() as u32, rng.next_u64() as u32, rng.below(8) as u8),
+        31..=58 => CorruptSpec::Cell(rng.next_u64() as u32, rng.next_u64() as u32, rng.below(10) as u8),
         59..=70 => CorruptSpec::StreamLen(rng.next_u64() as u32, rng.below(5) as u8, rng.next_u64() as u32),
         71..=74 => CorruptSpec::PoolHeader(rng.below(4) as u8),
         75..=84 => CorruptSpec::PoolEntry(rng.next_u64() as u32, rng.below(10) as u8),
         85..=92 => CorruptSpec::PropSet(if rng.chance(120) { 19 } else { rng.below(20) as u8 }, rng.next_u64() as u32),
         93..=94 => CorruptSpec::DataHighBit(rng.next_u64() as u32),
-        95..=96 => CorruptSpec::AddEntry(rng.below(8) as u8),
+        95..=96 => CorruptSpec::AddEntry(if rng.chance(300) { *rng.pick(&[12u8, 28]) } else { rng.below(8) as u8 }),
         97 => CorruptSpec::PoolGrow(*rng.pick(&[1u32, 70, 65_535, 70_000, 80_000])),
         _ => CorruptSpec::RootClsid,
     }
